@@ -36,8 +36,8 @@ type c05Op struct {
 }
 
 func (o c05Op) String() string {
-	if o.kind == "add" {
-		return fmt.Sprintf("add(%s,%d)", shortName(o.name), o.n)
+	if o.kind == "add" || o.kind == "foreign" {
+		return fmt.Sprintf("%s(%s,%d)", o.kind, shortName(o.name), o.n)
 	}
 	return o.kind
 }
@@ -81,6 +81,14 @@ func c05Run(t *rapid.T, base string, weekends string, ops []c05Op, faults []c05F
 	CounterTime = func() time.Time { return now }
 	res := &c05Result{begun: map[string]uint64{}, extra: map[string]uint64{}, hit: make([]bool, len(faults))}
 	counters := map[string]*Counter{}
+	// a second process using the same directory (its own file object, mapping and counters)
+	other := &file{}
+	defer func() {
+		if m := other.current.Load(); m != nil {
+			m.close()
+		}
+	}()
+	foreign := map[string]*Counter{}
 	ctl := vhook.New()
 	ctl.KeepLog = true
 	ctl.TickBudget = 2_000_000
@@ -119,6 +127,18 @@ func c05Run(t *rapid.T, base string, weekends string, ops []c05Op, faults []c05F
 				}
 				res.begun[op.name] += uint64(op.n)
 				c.Add(op.n)
+			case "foreign":
+				// the other process counts: it opens the week's file if it has not yet, and may grow it
+				if other.current.Load() == nil {
+					other.rotate1()
+				}
+				c := foreign[op.name]
+				if c == nil {
+					c = &Counter{name: op.name, file: other}
+					foreign[op.name] = c
+				}
+				res.begun[op.name] += uint64(op.n)
+				c.Add(op.n)
 			case "read":
 				for _, c := range counters {
 					Read(c)
@@ -140,6 +160,9 @@ func c05Run(t *rapid.T, base string, weekends string, ops []c05Op, faults []c05F
 	res.ticks = ctl.Ticks
 	for name, c := range counters {
 		res.extra[name] = c.state.load().extra()
+	}
+	for name, c := range foreign {
+		res.extra[name] += c.state.load().extra()
 	}
 	res.persisted = map[string]uint64{}
 	ents, _ := os.ReadDir(telemetry.Default.LocalDir())
@@ -208,6 +231,23 @@ func c05Scenario(t *rapid.T) ([]c05Op, bool) {
 			ops = append(ops, c05Op{kind: "open"})
 		}
 		vstats.Label("manyLongNamesPending")
+	}
+	if rapid.IntRange(0, 3).Draw(t, "foreignGrowth") == 0 {
+		// another process using the same directory grows the week's file while this one has it mapped; then this
+		// process counts the same things: their records lie beyond what it has mapped, it has to map the file again
+		if !openFirst {
+			ops = append(ops, c05Op{kind: "open"})
+		}
+		k := rapid.IntRange(4, 8).Draw(t, "foreignNames")
+		for i := 0; i < k; i++ {
+			ops = append(ops, c05Op{kind: "foreign", name: fmt.Sprintf("F%d/", i) + strings.Repeat("f", 4000), n: 1})
+		}
+		for i := 0; i < k; i++ {
+			if rapid.Bool().Draw(t, "ownAddOfForeign") {
+				ops = append(ops, c05Op{kind: "add", name: fmt.Sprintf("F%d/", i) + strings.Repeat("f", 4000), n: 2})
+			}
+		}
+		vstats.Label("foreignGrowth")
 	}
 	for i := 0; i < n; i++ {
 		k := rapid.SampledFrom([]string{"add", "add", "add", "add", "open", "rotate", "read", "rmfile", "rmdir", "setmode"}).Draw(t, "op")
